@@ -51,7 +51,7 @@ func c13BLSGroup[T any, PT c13Elt[T]](t *testing.T, unit, name string, ref *wcur
 	defer r.Finish()
 	r.Rule("bls12381." + name + ": points PT = {O, +-kG, [(r+-1)/2]G, +-[s]G} decoded from the reference's uncompressed and compressed encodings; Add on PT x PT (also with projective operands), " +
 		"Double/Neg on PT, ScalarMult on SC x PT with SC = curvealpha.Scalars(r, 256) entered through Scalar.SetBytes (32-byte big-endian; reduced by the library) plus 48-byte wide values; " +
-		"results compared as encodings (both forms), IsEqual, IsIdentity, subgroup membership; distinct = distinct (operation, operand names)")
+		"before any encoding the predicates (IsIdentity, IsOnG1/G2, IsEqual against the expected point, SetIdentity, a computed identity T+(-T), the same point by another route, a different point) are queried directly on byte-identical copies of each freshly computed projective result, including the chain ((P+Q)-Q)-P; then results are compared as encodings (both forms); distinct = distinct (operation, operand names)")
 	N := ref.N
 	sc := curvealpha.Scalars(N, 256, r.Seed())
 	wide := curvealpha.Core(curvealpha.Scalars(N, 384, 0))
@@ -81,7 +81,45 @@ func c13BLSGroup[T any, PT c13Elt[T]](t *testing.T, unit, name string, ref *wcur
 		}
 		return e
 	}
+	// preds queries the predicates DIRECTLY on byte-identical copies of the freshly
+	// computed (projective, non-normalised) value, before any encoding.
+	Tp := ref.BaseMult(big.NewInt(0x51ed27))
+	preds := func(op, class, id string, got PT, want wcurve.Point, payload interface{}) {
+		fresh := func() PT { f := *(*T)(got); return PT(&f) }
+		kind := "non-identity"
+		if want.Inf {
+			kind = "identity"
+			r.Count("identity_results_queried", 1)
+		} else {
+			r.Count("non_identity_results_queried", 1)
+		}
+		fail := func(pred string, v, exp bool) {
+			if v != exp {
+				bad(op, "predicate:"+pred+"|fresh-result|"+kind+"|"+class, id,
+					fmt.Sprintf("%s: %s = %v on the freshly computed result, the reference says %v (result should be %v)", id, pred, v, exp, want), payload)
+			}
+		}
+		fail("IsIdentity", fresh().IsIdentity(), want.Inf)
+		fail("IsOnG", inGroup((*T)(fresh())), true)
+		fail("IsEqual(expected)", fresh().IsEqual((*T)(mk(want))), true)
+		fail("expected.IsEqual(result)", mk(want).IsEqual((*T)(fresh())), true)
+		I := PT(new(T))
+		I.SetIdentity()
+		fail("IsEqual(SetIdentity)", fresh().IsEqual((*T)(I)), want.Inf)
+		fail("SetIdentity.IsEqual(result)", I.IsEqual((*T)(fresh())), want.Inf)
+		CI := PT(new(T)) // an identity produced by arithmetic, projective
+		CI.Add((*T)(mk(Tp)), (*T)(mk(ref.Neg(Tp))))
+		fail("(T+(-T)).IsIdentity", CI.IsIdentity(), true)
+		fail("IsEqual(T+(-T))", fresh().IsEqual((*T)(CI)), want.Inf)
+		fail("(T+(-T)).IsEqual(result)", CI.IsEqual((*T)(fresh())), want.Inf)
+		alt := PT(new(T)) // the same point by another route
+		alt.Add((*T)(mk(ref.Sub(want, Tp))), (*T)(mk(Tp)))
+		fail("IsEqual(other-route)", fresh().IsEqual((*T)(alt)), true)
+		fail("IsEqual(different-point)", fresh().IsEqual((*T)(mk(ref.Add(want, ref.G)))), false)
+		fail("IsEqual(-expected)", fresh().IsEqual((*T)(mk(ref.Neg(want)))), want.Inf)
+	}
 	check := func(op, class, id string, got PT, want wcurve.Point, payload interface{}) {
+		preds(op, class, id, got, want, payload)
 		if enc := got.Bytes(); !bytes.Equal(enc, ref.MarshalBLS(want, false)) {
 			bad(op, "wrong-result|"+class, id, fmt.Sprintf("%s: got %x want %x", id, enc, ref.MarshalBLS(want, false)), payload)
 			return
@@ -130,6 +168,12 @@ func c13BLSGroup[T any, PT c13Elt[T]](t *testing.T, unit, name string, ref *wcur
 				nq.Neg()
 				if try("Add", id+"/back", func() { out.Add((*T)(out), (*T)(nq)) }) {
 					check("Add", "projective,aliased|P="+a.Name+"|Q="+b.Name, id+"/back", out, refPts[i], nil)
+					// chain to the identity through projective operands: ((P+Q)-Q)-P
+					np := mk(refPts[i])
+					np.Neg()
+					if try("Add", id+"/chain", func() { out.Add((*T)(out), (*T)(np)) }) {
+						check("Add", "chain-to-identity|P="+a.Name+"|Q="+b.Name, id+"/chain", out, ref.Infinity(), nil)
+					}
 				}
 			}
 			r.Eval(2)
@@ -201,6 +245,8 @@ func c13BLSGroup[T any, PT c13Elt[T]](t *testing.T, unit, name string, ref *wcur
 	r.RequireCounter("add_with_identity", 10)
 	r.RequireCounter("scalar_ge_order", 50)
 	r.RequireCounter("result_identity", 10)
+	r.RequireCounter("identity_results_queried", 300)
+	r.RequireCounter("non_identity_results_queried", 1000)
 }
 
 func TestVerifC13_bls_g1(t *testing.T) {
@@ -397,7 +443,7 @@ func TestVerifC13_bls_pairing(t *testing.T) {
 	r.Rule("e0 = Pair(G1, G2) lifted coefficient-wise into the reference GF(p^12) tower: e0 != 1 and e0^r = 1; Pair([a]G1, [b]G2) = e0^(ab) for all (a, b) in E x E, " +
 		"E = {0, 1, 2, 3, r-1, r-2, (r+1)/2, 2 SHAKE values} with the points decoded from the reference's encodings (never produced by the library's own multiplication) and the power computed by the reference tower; " +
 		"any pair containing the identity maps to one; ProdPair over all lists of length 1..2 of (a, b, n) in {0,1,2,r-1} x {0,1,2} x {r-2,r-1,0,1,2} (thorough: also length 3 over {0,1,r-1} x {0,1} x {r-1,0,1,2}), " +
-		"ProdPairFrac over all lists of length 1..3 of (a, b, sign) in {0,1,2,r-1} x {0,1,2} x {+1,-1} equal e0^(sum); Gt.Exp/Mul/Inv agree with the tower on the same values; distinct = distinct exponent/sign vectors")
+		"ProdPairFrac over all lists of length 1..3 of (a, b, sign) in {0,1,2,r-1} x {0,1,2} x {+1,-1} equal e0^(sum); Gt.Exp/Mul/Inv agree with the tower on the same values; the Gt predicates (IsIdentity, IsEqual against SetIdentity, a computed identity e0*e0^-1, the same value by Gt.Exp, a different value) are queried on every fresh pairing result; distinct = distinct exponent/sign vectors")
 	g1, g2 := wcurve.BLS12381G1(), wcurve.BLS12381G2()
 	R := wcurve.BLS12381R()
 	pc := &c13Pair{tw: fpx.NewTower12(wcurve.BLS12381P()), r: R, memo: map[string]fpx.E12{}}
@@ -432,7 +478,52 @@ func TestVerifC13_bls_pairing(t *testing.T) {
 		bad("Pair", "order", "e0", "e(G1, G2)^r != 1: the result is not in the order-r subgroup of GF(p^12)*", nil)
 	}
 	r.Count("order_checked", 1)
+	var gtMu sync.Mutex
+	gtMemo := map[string]*bls.Gt{}
+	libPow := func(x *big.Int) *bls.Gt { // e0^x by the library's own Gt.Exp (checked separately against the tower)
+		x = new(big.Int).Mod(x, R)
+		gtMu.Lock()
+		v, ok := gtMemo[x.Text(16)]
+		gtMu.Unlock()
+		if ok {
+			return v
+		}
+		v = new(bls.Gt)
+		v.Exp(e0, c13Scalar(x, 32))
+		gtMu.Lock()
+		gtMemo[x.Text(16)] = v
+		gtMu.Unlock()
+		return v
+	}
 	same := func(op, class, id string, got *bls.Gt, exp *big.Int, payload interface{}) {
+		{
+			// target-group predicates, asked directly about the fresh value
+			isOne := new(big.Int).Mod(exp, R).Sign() == 0
+			kind := "non-identity"
+			if isOne {
+				kind = "identity"
+				r.Count("gt_identity_results_queried", 1)
+			} else {
+				r.Count("gt_non_identity_results_queried", 1)
+			}
+			fail := func(pred string, v, want bool) {
+				if v != want {
+					bad(op, "predicate:"+pred+"|fresh-result|"+kind+"|"+class, id, fmt.Sprintf("%s: Gt %s = %v, the reference says %v", id, pred, v, want), payload)
+				}
+			}
+			f1, f2, f3, f4, f5 := *got, *got, *got, *got, *got
+			one := new(bls.Gt)
+			one.SetIdentity()
+			fail("IsIdentity", f1.IsIdentity(), isOne)
+			fail("IsEqual(SetIdentity)", f2.IsEqual(one), isOne)
+			ci, inv := new(bls.Gt), new(bls.Gt) // an identity produced by arithmetic: e0 * e0^-1
+			inv.Inv(e0)
+			ci.Mul(e0, inv)
+			fail("(e0*e0^-1).IsIdentity", ci.IsIdentity(), true)
+			fail("IsEqual(e0*e0^-1)", f3.IsEqual(ci), isOne)
+			fail("IsEqual(other-route)", f4.IsEqual(libPow(exp)), true)
+			fail("IsEqual(different-element)", f5.IsEqual(libPow(new(big.Int).Add(exp, big.NewInt(1)))), false)
+		}
 		want := pc.pow(exp)
 		g, ok := pc.lift(got)
 		if !ok || !pc.tw.Equal(g, want) {
@@ -636,4 +727,6 @@ func TestVerifC13_bls_pairing(t *testing.T) {
 	r.RequireCounter("ProdPair_with_identity", 100)
 	r.RequireCounter("ProdPairFrac_with_identity", 100)
 	r.RequireCounter("order_checked", 1)
+	r.RequireCounter("gt_identity_results_queried", 100)
+	r.RequireCounter("gt_non_identity_results_queried", 1000)
 }
